@@ -60,7 +60,7 @@ func runC06(c *Ctx) {
 		h := m.LoopIf.Block()
 		// the natural loop: blocks reachable from the body entry (not through the test) that can get back to the test
 		region := map[*ssa.BasicBlock]bool{}
-		for b := range reachableFrom([]*ssa.BasicBlock{h.Succs[0]}, map[*ssa.BasicBlock]bool{h: true}) {
+		for b := range reachableFrom([]*ssa.BasicBlock{m.LoopBody}, map[*ssa.BasicBlock]bool{h: true}) {
 			if b == h || reachableFrom([]*ssa.BasicBlock{b}, nil)[h] {
 				region[b] = true
 			}
